@@ -143,7 +143,10 @@ class Ctx:
         ev = {"property_id": self.pid, "tier": self.tier, "seed": self.seed, "level": level,
               "coverage": cov, "assumptions": self.assumptions,
               "wall_s": round(time.time() - self.t0, 2), "violations": len(self.violations)}
-        (EVID / f"{self.pid}.json").write_text(json.dumps(ev, indent=1, default=str) + "\n")
+        # checks beyond the listed properties (ids X01, X02, ...: growth of the specification) keep their evidence apart
+        evdir = EVID / "extras" if self.pid.startswith("X") else EVID
+        evdir.mkdir(exist_ok=True)
+        (evdir / f"{self.pid}.json").write_text(json.dumps(ev, indent=1, default=str) + "\n")
         for ln in out_lines:
             print(ln)
         print(f"[{self.pid}] tier={self.tier} seed={self.seed} states={self.states} transitions={self.transitions} "
